@@ -13,7 +13,10 @@ Quirks of the code that the model keeps:
   and for the midpoint threshold; the last sorted position is never moved;
 * `min_weight_split` is compared with the *number* of rows of the node, `min_weight_leaf` with
   weights;
-* fitting routes `value <= split` to the left, prediction routes `value < split`;
+* the threshold is the midpoint to the globally next value, or the current value when the
+  midpoint is not below the next value (floating-point rounding; after `fix:` commits in linfa —
+  before them the midpoint was used unconditionally and prediction routed `value < split`);
+* fitting and prediction both route `value <= split` to the left;
 * `gini_impurity` / `entropy` `assert!` a positive total (reachable with `min_weight_leaf <= 0`);
 * a node one of whose sides received no row is flagged `leaf_node` but keeps its other child
   (constructor `half`);
@@ -158,7 +161,8 @@ def sweepGo (P : Params α β) (D : Data α β) (mask : List Bool) (f : Nat) (to
       else
         let wq := wR' / total
         let score := wq * impurity P fR' + (1 - wq) * impurity P fL'
-        { feat := f, split := (v + v') / ((2 : Nat) : α), score := score, wL := wL', wR := wR',
+        let mid := (v + v') / ((2 : Nat) : α)
+        { feat := f, split := (if mid < v' then mid else v), score := score, wL := wL', wR := wR',
           fL := fL', fR := fR', ok := impOk fR' && impOk fL' } ::
           sweepGo P D mask f total fL' fR' wL' wR' ((j, v') :: rest)
     else
@@ -262,16 +266,16 @@ def fit (P : Params α β) (D : Data α β) (ord : List Nat → List Nat) (p : N
 def predict (row : List α) : Tree α → Nat
   | .leaf p _ => p
   | .half _ _ _ p _ _ _ => p
-  | .node f s _ _ _ l r => if row.getD f 0 < s then predict row l else predict row r
+  | .node f s _ _ _ l r => if row.getD f 0 ≤ s then predict row l else predict row r
 
 /-- the fit-time route of a row (`<=`), as the list of turns (true = left) -/
 def routeFit (row : List α) : Tree α → List Bool
   | .node f s _ _ _ l r => if row.getD f 0 ≤ s then true :: routeFit row l else false :: routeFit row r
   | _ => []
 
-/-- the predict-time route of a row (`<`) -/
+/-- the predict-time route of a row: the comparisons `make_prediction` makes -/
 def routePredict (row : List α) : Tree α → List Bool
-  | .node f s _ _ _ l r => if row.getD f 0 < s then true :: routePredict row l else false :: routePredict row r
+  | .node f s _ _ _ l r => if row.getD f 0 ≤ s then true :: routePredict row l else false :: routePredict row r
   | _ => []
 
 /-! ### feature importances -/
